@@ -124,9 +124,15 @@ CHECKS += [
          "once (restricted by the optional filter), each trace's spans == its nodes rows with child links == its association rows; traces longer than / "
          "equal to / shorter than the batch size and off batch boundaries, interleaved ingestion order.",
          "Bounded exploration on real sqlite; the nested lazy generators are consumed in the order the real consumers use. Additionally PROVED for all "
-         "inputs (contracts/c12.py, 10 clauses): node_to_otel_event copies every stored field and gives exactly the ids of node.children as child ids; "
-         "job_ids_to_eventid_to_otelevent_map yields one id->span map per trace whose parent links resolve, in order, holding every span of the trace "
-         "(a trace with a missing parent is skipped, nothing else is). The SQL row stream and the two-level lazy groupby are NOT under contract.",
+         "inputs (contracts/c12.py, 29 clauses), under the LIST reading of generators and a trusted model of itertools.groupby (maximal runs of equal "
+         "keys; validated against CPython by sampling) and of the SQL row stream (one span per selected row, ordered by job_name, job_id): stream_data "
+         "yields each workflow name once, under it each trace id once, every trace non-empty and homogeneous (its spans carry the name and the id it is "
+         "listed under), the j-th span of the s-th trace of the a-th name is row number start(a)+start(s)+j of the row stream and every row is reached "
+         "exactly so (nothing dropped, duplicated or re-attributed) - lemmas name_runs_increase / name_group_sorted / id_runs_increase: in an ordered "
+         "stream the runs of equal keys have strictly increasing keys; node_to_otel_event copies every stored field and gives exactly the ids of "
+         "node.children as child ids; job_ids_to_eventid_to_otelevent_map yields one id->span map per trace whose parent links resolve, in order, "
+         "holding every span of the trace. NOT covered by the proof: the laziness of the real nested iterators over a server-side cursor (a group is "
+         "only valid until the next is requested) and the SQL itself - that is what the bounded harness exercises.",
          "DESIGN.md 4/C12"),
     bchk("C14", "BOUNDED (never counted as proved). Through the real entry point otel_to_puml: otel2puml on a data set versus otel2pv with saved events "
          "followed by pv2puml on the saved files, with the default and with a fully renamed field mapping, sync and async: the saved PV files hold exactly "
